@@ -37,6 +37,7 @@ fn main() {
         "bus-sig-check" => bussig::check(&args[2]),
         "board-check" => boardsig::check(&args[2]),
         "clamp-sweep" => boardsig::clamp_sweep(args[2].parse().unwrap()),
+        "comp-sweep" => boardsig::comp_sweep(),
         "replay" => replay::replay_file(&args[2]),
         _ => usage(),
     }
